@@ -178,6 +178,11 @@ func c16Record(tier string, seed int64, emit func(interface{})) {
 			for x := 0; x < rng.Intn(5); x++ {
 				iso = append(iso, word(7, letters+"0123456789"))
 			}
+			if i%5 == 1 && j == k/2 { // one very long line in the middle of the listing: beyond any fixed line buffer
+				for x := 0; x < 12000; x++ {
+					iso = append(iso, word(7, letters+"0123456789"))
+				}
+			}
 			comm := ""
 			if len(codes) > 0 {
 				for x := 0; x < rng.Intn(16); x++ {
